@@ -267,6 +267,8 @@ class Interp:
         self.solver = z3.Solver()
         self.solver.set("timeout", prune_timeout_ms)
         self.const_cache = {}
+        self.const_overrides = []       # job-provided values of named constants: [(compiled regex, value)]
+        self.fresh_capacity = 0         # number of free slots of a set / map created empty by the code under test
         self.stats = {"forks": 0, "prune_calls": 0, "calls": 0, "paths": 0, "model_calls": {}, "mir_calls": {}}
         self.depth = 0
 
@@ -562,6 +564,9 @@ class Interp:
         key = (name, norm_ty(want_ty) if want_ty else None)
         if key in self.const_cache:
             return self.const_cache[key]
+        for rx, val in self.const_overrides:
+            if rx.search(name):
+                return val
         segs = split_path(name)
         last = segs[-1]
         v = None
@@ -772,10 +777,10 @@ class Interp:
         if kind == "Transmute" and v.kind == "ref" and to == "usize":
             return IntV(4096, "usize")        # address of a model heap cell: fixed, aligned, non-null
         if kind in ("PointerCoercion(Unsize, Implicit)", "PointerCoercion(Unsize, AsCast)", "Transmute", "PtrToPtr"):
-            if v.kind == "ref":
-                return RefV(to, v.fid, v.local, v.projs)
             if isinstance(v, _ConstRef):
                 return v
+            if v.kind == "ref":
+                return RefV(to, v.fid, v.local, v.projs)
         if kind.startswith("PointerCoercion(ReifyFnPointer") or kind.startswith("PointerCoercion(ClosureFnPointer"):
             return v
         raise Refuse("cast kind %s" % kind)
@@ -1212,11 +1217,16 @@ class Interp:
 
     def call_value(self, path, fv, args, dest_ty):
         """call a function VALUE (closure struct, fn item, tuple-struct constructor)."""
-        if fv.kind == "ref":
-            fv = self.read(path, fv.fid, fv.local, fv.projs)
+        fref = None
+        while fv.kind == "ref":
+            fref = fv
+            fv = fv.target if hasattr(fv, "target") else self.read(path, fv.fid, fv.local, fv.projs)
         if fv.kind == "struct" and fv.ty.startswith("{closure@"):
             f = self.pick_closure(fv.ty, list(args), dest_ty)
             a0 = fv
+            if f.params and norm_ty(f.params[0][1]).startswith("&"):
+                # Fn / FnMut bodies take the closure by reference
+                a0 = fref if fref is not None else _ConstRef(norm_ty(f.params[0][1]), fv)
             return self.call_function(f, [a0] + list(args), path)
         if fv.kind == "fn":
             name = fv.name
